@@ -5,21 +5,22 @@
 (*       (ok), and the state invariants are checked.                           *)
 (*  Gen: the same state machine in simulation mode prints histories (hist) of  *)
 (*       exactly MaxOps calls, which the driver replays on the real cgroupfs.  *)
-EXTENDS Cgroup, TLC, Json
-CONSTANTS Ctls, Names, RNames, PidSet, MaxOps, MaxDepth, MaxHandles, WithSet, Emit
+EXTENDS Cgroup, TLC, Json, SequencesExt
+CONSTANTS CtlSets, Names, RNames, PidSet, MaxOps, MaxDepth, MaxHandles, WithSet, Emit
 VARIABLES S, ok, hist
 vars == <<S, ok, hist>>
 
 Op(o, h, name, names, path, pid, kind, val) ==
   [op |-> o, h |-> h, name |-> name, names |-> names, path |-> path, pid |-> pid, kind |-> kind, val |-> val]
 
-S0 == [ctls |-> Ctls, dirs |-> [c \in Ctls |-> {}], mem |-> [c \in Ctls |-> [k \in PidSet |-> Outside]], hs |-> <<>>]
-\* the first call of every history creates the base group
-Init == LET r == ImplNewAt(S0, <<>>) IN
-        /\ S = r.S /\ ok = (r = SpecNewAt(S0, <<>>))
-        /\ hist = <<Op("top", 0, "", <<>>, <<>>, "", "", 0)>>
+S0(cs) == [ctls |-> cs, dirs |-> [c \in cs |-> {}], mem |-> [c \in cs |-> [k \in PidSet |-> Outside]], hs |-> <<>>]
+\* the first call of every history creates the base group (v1 with a set of controllers, or cgroup2: {"u"})
+Init == \E cs \in CtlSets :
+        LET r == ImplNewAt(S0(cs), <<>>) IN
+        /\ S = r.S /\ ok = (r = SpecNewAt(S0(cs), <<>>))
+        /\ hist = <<Op("top", 0, "", SetToSeq(cs), <<>>, "", "", 0)>>
 
-KindOK(k) == (k = "mem" /\ "memory" \in Ctls) \/ (k \in {"cpu", "pids"} /\ k \in Ctls)
+KindOK(k) == (k = "mem" /\ "memory" \in S.ctls) \/ (k \in {"cpu", "pids"} /\ k \in S.ctls)
 Usable(h) == S.hs[h].live /\ Exists(S, S.hs[h].path)
 Room == Len(S.hs) < MaxHandles
 Step(impl, spec, o) ==
@@ -63,7 +64,7 @@ OneOwner == NoDoubleOwner(S)
 Housed == MembersHoused(S)
 \* a directory is only ever removed by Destroy through a handle that created it (checked on every step)
 OnlyOwnersRemove ==
-  [][\A c \in Ctls : \A p \in S.dirs[c] \ S'.dirs[c] :
+  [][\A c \in S.ctls : \A p \in S.dirs[c] \ S'.dirs[c] :
         \E h \in DOMAIN S.hs : S.hs[h].path = p /\ c \in S.hs[h].own /\ S.hs[h].live /\ ~S'.hs[h].live]_vars
 View == <<S, ok, Len(hist)>>
 =============================================================================
